@@ -109,3 +109,26 @@
         }
         assert!(well_formed(&c, n), "OBL:collection_stays_well_formed");
     }
+
+    // C17: after sort + update_tokens (merging the highlight of a variable name / rule result into one
+    // token) the collection is still ordered, in range and free of overlaps, and nothing panics
+    #[kani::proof]
+    fn update_tokens_keeps_wellformed() {
+        let (mut c, n, bounds) = any_collection();
+        // two well-formed, disjoint tokens in arbitrary order
+        let a1: usize = kani::any(); let b1: usize = kani::any();
+        let a2: usize = kani::any(); let b2: usize = kani::any();
+        kani::assume(a1 < b1 && b1 <= n && a2 < b2 && b2 <= n && (b1 <= a2 || b2 <= a1));
+        c.tokens = Vec::with_capacity(4);
+        c.tokens.push(UiToken { start: a1, end: b1, ui_type: UiTokenType::Text });
+        c.tokens.push(UiToken { start: a2, end: b2, ui_type: UiTokenType::Number });
+        c.sort();
+        assert!(c.tokens[0].start <= c.tokens[1].start, "OBL:sort_orders_by_start");
+        // merge a character range given by byte offsets on character boundaries
+        let s: usize = kani::any(); let e: usize = kani::any();
+        kani::assume(s < e && e <= n);     // callers pass the span of at least one token
+        c.update_tokens(bounds[s], bounds[e], UiTokenType::VariableUse);
+        assert!(c.tokens.len() >= 1 && c.tokens.len() <= 2, "OBL:merge_never_adds_tokens");
+        assert!(well_formed(&c, n), "OBL:collection_stays_well_formed_after_merge");
+        if c.tokens.len() == 2 { assert!(c.tokens[0].start <= c.tokens[1].start, "OBL:still_ordered_after_merge"); }
+    }
